@@ -125,6 +125,42 @@ fn main() {
                 || Square::make_square(q.get_rank(), q.get_file()) != q {
                 rep.violation("C16", "file_rank_of_square_wrong", json!({"square": qi}));
             }
+            // index arithmetic of squares, ranks and files
+            if let Some(ar) = rec.get("arith") {
+                for (k, v) in ar["sqnew"].as_array().unwrap().iter().enumerate() {
+                    let arg = (qi as usize + 64 * k) as u8;
+                    if k < 4 && (qi as usize + 64 * k) < 256 && Square::new(arg).to_index() as i64 != v.as_i64().unwrap() {
+                        rep.violation("C16", "square_new_wraps_wrong", json!({"arg": arg, "expected": v, "observed": Square::new(arg).to_index()}));
+                    }
+                }
+                for i in 0..16usize {
+                    rep.count("index_arithmetic", 2);
+                    if Rank::from_index(i).to_index() as i64 != ar["rankfrom"][i].as_i64().unwrap() {
+                        rep.violation("C16", "rank_from_index_wrong", json!({"arg": i, "observed": Rank::from_index(i).to_index()}));
+                    }
+                    if File::from_index(i).to_index() as i64 != ar["filefrom"][i].as_i64().unwrap() {
+                        rep.violation("C16", "file_from_index_wrong", json!({"arg": i, "observed": File::from_index(i).to_index()}));
+                    }
+                }
+                let rk = q.get_rank();
+                let fl = q.get_file();
+                let pairs: Vec<(&str, i64)> = vec![("rankup", rk.up().to_index() as i64), ("rankdown", rk.down().to_index() as i64),
+                    ("fileright", fl.right().to_index() as i64), ("fileleft", fl.left().to_index() as i64)];
+                for (name, got) in pairs {
+                    if ar[name].as_i64().unwrap() != got {
+                        rep.violation("C16", &format!("{}_wrong", name), json!({"square": qi, "expected": ar[name], "observed": got}));
+                    }
+                }
+                for r in 0..8usize {
+                    for f in 0..8usize {
+                        let s = Square::make_square(Rank::from_index(r), File::from_index(f));
+                        if s.to_index() as i64 != ar["make"][r][f].as_i64().unwrap() || s.get_rank().to_index() != r || s.get_file().to_index() != f
+                            || ALL_SQUARES[r * 8 + f] != s || ALL_RANKS[r] != Rank::from_index(r) || ALL_FILES[f] != File::from_index(f) {
+                            rep.violation("C16", "make_square_wrong", json!({"rank": r, "file": f, "observed": s.to_index()}));
+                        }
+                    }
+                }
+            }
             for b in 0..64u8 {
                 let p = Square::new(b);
                 cmp(&format!("between"), between(q, p), &rec["between"][b as usize], &mut rep);
